@@ -173,7 +173,8 @@ def run(prog, check):
     srcs_ = sorted({n.attr for n in uses})
     tf = TermEval(gf.node)
     tf.run(gf.params())
-    texts = [canon_index(t_) for t_, a_, l_ in tf.returns]
+    from ..tableterm import expand_empty_joins
+    texts = [expand_empty_joins(canon_index(t_)) for t_, a_, l_ in tf.returns]
     ok_one, okb, whyb = bool(texts), bool(texts), ''
     for t_ in texts:
         parts = t_[1] if t_[0] == 'cat' else (t_,)
